@@ -246,6 +246,22 @@ def t_process_batch(E, cancellable=False):
             return None
         Bn['__with_ext__'] = with_
 
+        def sem_attr(E_, obj, name, node):
+            # explicit calls on the semaphore besides `async with`: asyncio.Semaphore is unbounded, a release() too many
+            # is a permit too many from then on
+            if name == 'locked':
+                return VStub('Semaphore.locked', lambda E_, a, k: VBool(E.fresh('all_slots_busy', z3.BoolSort())))
+            if name == 'release':
+                return VStub('Semaphore.release', lambda E_, a, k: (E.effect('sem.release', obj), NONE)[1])
+            if name == 'acquire':
+                def acq(E_, a, k):
+                    E.effect('sem.acquire', obj)
+                    return aio.mk_awaitable('ready_true')
+                return VStub('Semaphore.acquire', acq)
+            return None
+        Bn[('attr', 'ASemaphore')] = sem_attr
+        aio.AWAIT['ready_true'] = lambda E_, v, node: VBool(True)
+
     def _nonempty(E_, st_):
         ne = E.fresh('futs_nonempty', B)
         E.assume(z3.Implies(z3.Select(E.w['d_has'], st_['k0']), ne))
@@ -559,6 +575,12 @@ def t_get_next_batch(E):
                 if name == 'get_nowait':
                     return VStub('Queue.get_nowait', lambda E_, a, k: _unsupp('direct get_nowait() call'),
                                  attrs={'q': obj})
+                if name in ('empty', 'qsize'):
+                    def how_many(E_, a, k):
+                        """what has arrived and is not dequeued yet, right now (no suspension)"""
+                        n_ = available(deq(), now(E))
+                        return VBool(n_ == 0) if name == 'empty' else VInt(n_)
+                    return VStub('Queue.' + name, how_many)
             if isinstance(obj, Obj) and obj.cls == 'ASemaphore' and name == 'locked':
                 # whether a concurrency slot is free right now: decided by the batches in progress, unknown here
                 return VStub('Semaphore.locked', lambda E_, a, k: VBool(E.fresh('all_slots_busy', z3.BoolSort())))
@@ -886,6 +908,13 @@ def t_processing_loop(E):
                                        _semaphore=Obj('ASemaphore', dict(value=E.fresh_int('permits')))))
         st['o'] = o
         E.builtins['__with_ext__'] = with_
+        # wait_for / shield around the batch coroutine: the task then runs something else than _process_batch itself (a
+        # deadline of the batcher's own cancels the batch function and leaves every caller of the batch unanswered)
+        ns_ = E.builtins[('import', 'asyncio')]
+        ns_.attrs['wait_for'] = VStub('asyncio.wait_for', lambda E_, a, k: aio.mk_awaitable(
+            'wait_for_in_processing_loop', inner=a[0], timeout=a[1] if len(a) > 1 else k.get('timeout')))
+        ns_.attrs['shield'] = VStub('asyncio.shield', lambda E_, a, k: aio.mk_awaitable(
+            'shield_in_processing_loop', inner=a[0]))
         E.specs[MOD + '.' + CLS + '._get_next_batch'] = _GNB()
         E.specs[MOD + '.' + CLS + '._process_batch'] = _PB()
         aio.AWAIT['ready'] = lambda E_, v, node: v.fields['value']
@@ -927,6 +956,7 @@ def t_call(E):
     E.cur_func = f.qualname
     Qn = f.qualname
     E.inline.add(MOD + '.' + CLS + '._forget')
+    E.inline.add(MOD + '._being_cancelled')
     st = {}
     G = ('rc_has', 'rc_fut', 'pend', 'owed', 'tmr')
 
@@ -965,6 +995,13 @@ def t_call(E):
     def install(o, key, arg):
         Bn = E.builtins
         ns = Bn[('import', 'asyncio')]
+        # the calling task may carry cancellation requests it has absorbed (a shutdown routine that cancels every
+        # worker, itself included, and then flushes; a final submission from an `except CancelledError` handler)
+        cur_task = Obj('CurrentTask')
+        n_req = E.fresh('cancellation_requests_of_the_calling_task', I)
+        E.assume(n_req >= 0)
+        cur_task.fields['cancelling'] = VStub('Task.cancelling', lambda E_, a, k: VInt(n_req))
+        ns.attrs['current_task'] = VStub('asyncio.current_task', lambda E_, a, k: cur_task)
 
         def key_ok(k, node):
             kk = k if isinstance(k, VStr) else None
@@ -1222,7 +1259,9 @@ def t_call(E):
         owner = bool(st.get('owner'))
         enq = st.get('enqueued', [])
         if owner:
-            E.oblige(Qn + '/create.exactly_one_tuple_enqueued', z3.BoolVal(len(enq) == 1), props={'C11', 'C04'})
+            # C09 too: a registered request that is never queued leaves every caller sharing the key, and every later
+            # caller of it, waiting for ever -- whatever made the first caller skip the queue (its own cancellation state)
+            E.oblige(Qn + '/create.exactly_one_tuple_enqueued', z3.BoolVal(len(enq) == 1), props={'C11', 'C04', 'C09'})
             if len(enq) == 1:
                 t = enq[0]
                 ok = isinstance(t, VTuple) and len(t.items) == 3 and isinstance(t.items[0], VStr) and \
